@@ -1,5 +1,5 @@
 """Prints the markdown tables of seeded changes (DESIGN.md §7.7) from /verif/seeded/*/meta.json, one table per round
-(round 1 = seeds -1/-2, round 2 = -3/-4, round 3 = -5/-6, round 4 = -7/-8)."""
+(round 1 = seeds -1/-2, round 2 = -3/-4, round 3 = -5/-6, round 4 = -7/-8 unless meta.json carries its own "round" key, as the seeds of round 5 do)."""
 import glob
 import json
 import os
@@ -12,12 +12,12 @@ def fmt(m):
     return ', '.join('%s:%s' % (k, {0: 'missed', 1: 'DETECTED', 2: 'harness-error'}.get(v, v)) for k, v in m.items()) or '-'
 
 
-rounds = {1: [], 2: [], 3: [], 4: []}
+rounds = {1: [], 2: [], 3: [], 4: [], 5: []}
 stats = {}
 for f in sorted(glob.glob(os.path.join(ROOT, 'seeded', '*', 'meta.json'))):
     d = json.load(open(f))
     n = int(d['seed'].split('-')[1])
-    rnd = (n + 1) // 2
+    rnd = d.get('round', (n + 1) // 2)
     first = d.get('check_exit', {})
     re_ = d.get('recheck', {})
     note = ' '.join(d.get('what_it_needs', '').split())
@@ -30,7 +30,7 @@ for f in sorted(glob.glob(os.path.join(ROOT, 'seeded', '*', 'meta.json'))):
     st['first_own'] += 1 if first.get(own) == 1 else 0
     st['final'] += 1 if caught else 0
     st['final_own'] += 1 if own in caught else 0
-for rnd in (1, 2, 3, 4):
+for rnd in (1, 2, 3, 4, 5):
     if not rounds[rnd]:
         continue
     st = stats[rnd]
